@@ -18,11 +18,12 @@ func init() {
 		Name:  "REDEF",
 		Doc:   "filter-gated root edges, input-set provenance, exclusion of supplied inputs, output filter, forwarding of the generated function",
 		Run:   runRedef,
-		Floor: map[string]int{"REDEF-R1": 3, "REDEF-R2": 2, "REDEF-R3": 3, "REDEF-R4": 4, "REDEF-R5": 6},
+		Floor: map[string]int{"REDEF-R1": 3, "REDEF-R2": 2, "REDEF-R3": 3, "REDEF-R4": 4, "REDEF-R5": 6, "FILTER": 2},
 	})
 }
 
 func runRedef(c *Ctx) {
+	c.runFilters()
 	p := c.P
 	kinds, err := p.VertexKinds()
 	if err != nil {
